@@ -127,8 +127,113 @@ def failure_obligations(tier):
 
 
 def run(tier, seed, only=None):
-    obs = obligations(tier, props=("C01",), prefix="C01")
+    obs = obligations(tier, props=("C01",), prefix="C01") + sim_obligations(tier)
     if only:
         obs = [o for o in obs if only in o.name]
     return run_property("C01", obs, tier, seed, assumptions=ASSUME,
                         explanation="whole-run bounded model checking of the real Tuner.run with nondeterministic scheduler and scripted backend; life-cycle / notification-order automata evaluated online")
+
+
+# ---------------------------------------------------------------------------------------------
+# C01.b  real SimulatorBackend (event heap, busy bookkeeping, blocking stop) inside the real loop
+# ---------------------------------------------------------------------------------------------
+def h_loop_sim(sym, W=2, T=3, F=3, ckpt=True, max_pause=1, wait=False):
+    import os
+    from syne_tune import StoppingCriterion
+    from syne_tune.blackbox_repository.simulated_tabular_backend import UserBlackboxBackend
+    from syne_tune.backend.simulator_backend.simulator_backend import SimulatorConfig
+    from syne_tune.backend.simulator_backend.simulator_callback import SimulatorCallback
+    from syne_tune.optimizer.scheduler import TrialSuggestion
+    from props.c10 import _install_clock, _blackbox
+    _install_clock(sym, False)
+    bb = _blackbox(sym, F, ncfg=3, concrete_from=0)       # concrete table: trials of different speed
+    sleep = (0.3, 2.0, 7.0)[sym.choice("tuner_sleep", 3)]
+    mon = Monitor(sym, W, ("C01",))
+
+    class SimBackend(UserBlackboxBackend):
+        """the real simulator backend; overrides only notify the monitor"""
+
+        def in_progress(self_):
+            return [t for t, _ in self_.busy_trial_ids()]
+
+        def reports_of_run(self_, tid, run):
+            return len(mon.delivered.get((tid, run), []))
+
+        def start_trial(self_, config, checkpoint_trial_id=None):
+            tr = super().start_trial(config, checkpoint_trial_id)
+            mon.cfg[tr.trial_id] = dict(config)
+            mon.b_start(tr.trial_id, self_)
+            return tr
+
+        def resume_trial(self_, trial_id, new_config=None):
+            mon.b_resume(trial_id, self_)
+            return super().resume_trial(trial_id, new_config)
+
+        def _pause_trial(self_, trial_id, result):
+            mon.b_pause(trial_id)
+            return super()._pause_trial(trial_id, result)
+
+        def _stop_trial(self_, trial_id, result):
+            mon.b_stop(trial_id)
+            return super()._stop_trial(trial_id, result)
+
+    be = SimBackend(blackbox=bb, elapsed_time_attr="et", max_resource_attr="epochs", support_checkpointing=ckpt,
+                    simulator_config=SimulatorConfig(delay_on_trial_result=0.1, delay_complete_after_final_report=0.5,
+                                                     delay_complete_after_stop=0.5, delay_start=0.2, delay_stop=0.3),
+                    tuner_sleep_time=sleep)
+    level = {}
+
+    class SimNDS(NDS):
+        def _suggest(self_, trial_id):
+            self_.n += 1
+            if self_.paused and sym.bool("resume_%d" % self_.n):
+                t = self_.paused.pop(0)
+                return TrialSuggestion.resume_suggestion(t, config={"c": t % 3, "epochs": F})
+            if trial_id >= self_.T:
+                return None
+            return TrialSuggestion.start_suggestion({"c": trial_id % 3, "epochs": F})
+
+        def on_trial_result(self_, trial, result):
+            tid = trial.trial_id
+            run = mon.cur_run[tid]
+            lv = result["epoch"]
+            prev = level.get((tid, run))
+            if prev is None:
+                first = 1 if (run == 0 or not ckpt) else level.get((tid, run - 1), 0) + 1
+                sym.check(lv == first, "SIM.first-level-of-run", "trial %d run %d starts reporting at level %s, expected %s" % (tid, run, lv, first))
+            else:
+                sym.check(lv == prev + 1, "SIM.levels-not-consecutive", "trial %d run %d: level %s after %s" % (tid, run, lv, prev))
+            level[(tid, run)] = lv
+            n = len(mon.delivered.get((tid, run), []))
+            result = dict(result, rid="%d:%d:%d:0" % (tid, run, n))
+            if lv >= F:
+                # contract of real pause/resume schedulers: no PAUSE at the maximum resource (nothing would be left to run)
+                self_.npause[tid] = self_.max_pause
+            return NDS.on_trial_result(self_, trial, result)
+    sch = SimNDS(sym, mon, T, max_pause=max_pause)
+    from syne_tune.config_space import choice as _choice
+    sch.config_space = {"c": _choice([0, 1, 2]), "epochs": F}
+    cb = SimulatorCallback()
+    cb.store_results = lambda: None       # stub nofs: no pandas / csv
+
+    from syne_tune.tuner_callback import TunerCallback
+
+    class EndFlag(TunerCallback):
+        def on_tuning_end(self_):
+            mon.tuning_over = True
+    tuner = make_tuner(sym, sch, be, [EndFlag(), cb], W, StoppingCriterion(max_num_trials_finished=T - 1), wait_trial_completion_when_stopping=wait)
+    tuner.run()
+    sym.goal("end")
+    if any(k[1] > 0 for k in level):
+        sym.goal("resumed-run-reports")
+
+
+def sim_obligations(tier):
+    quick = tier == "quick"
+    obs = []
+    for ckpt in (True, False):
+        obs.append(Ob("C01.b[simulator,W=2,T=%d,F=3,ckpt=%s]" % (2 if quick else 3, ckpt), "props.c01:h_loop_sim", dict(W=2, T=2 if quick else 3, F=3, ckpt=ckpt),
+                      bounds=dict(W=2, T=2 if quick else 3, fidelities=3, table="concrete, 3 speeds", tuner_sleep_time="0.3 / 2 / 7 s", pauses_per_trial="<=1"),
+                      goals=("end", "resume", "resumed-run-reports"), split=(("tuner_sleep", (0, 1, 2)), ("dec_3", (0, 1, 2)), ("dec_4", (0, 1, 2))),
+                      budget_s=2400, may_be_incomplete=not quick))
+    return obs
